@@ -19,7 +19,7 @@
     [C08_compiles_iff_wellformed] puts the two halves together for strings. Nothing of the property is
     left unproved on the model; the check compares the implementation with the model and with an
     independent maximal-munch lexer and recogniser. *)
-From MowCli Require Import Base Lexer Parser Values Flow Cmd LexerProofs ParserProofs GrammarProofs ShapeProofs MunchProofs TraceProofs.
+From MowCli Require Import Base Lexer Parser Values Flow Cmd LexerProofs ParserProofs GrammarProofs ShapeProofs MunchProofs TraceProofs Generated TieLex.
 
 (** the lexer never runs out of the fuel [tokenize] gives it *)
 Theorem C08_lexer_total : forall s, tokenize s <> LexFuel.
@@ -90,6 +90,14 @@ Proof.
   destruct H as [(m & p & ->)|(m & ->)]; reflexivity.
 Qed.
 
+(** Tie 2: the byte predicates the lexer of the CURRENT SOURCE decides with — their own source text run on all
+    256 bytes by tools/srcscan on every run, tables in Generated.v — are the predicates of the model's lexer,
+    for every byte (and both values of the "first character" flag of a long option name) *)
+Theorem C08_source_byte_classes_are_the_models :
+  forall c f, (g_isLowercase c, g_isUppercase c, g_isDigit c, g_isLetter c, g_isOkInArg c, g_isOkLongOpt c f)
+            = (isLowercase c, isUppercase c, isDigit c, isLetter c, isOkInArg c, isOkLongOpt c f).
+Proof. exact tie_lexer_classes. Qed.
+
 (** the recursive-descent parser and the declarative grammar accept the same token lists, with the
     same syntax tree *)
 Theorem C08_parser_iff_grammar :
@@ -137,6 +145,7 @@ Print Assumptions C08_parser_error_at_token.
 Print Assumptions C08_error_inside.
 Print Assumptions C08_panics_before_hooks.
 Print Assumptions C08_panics_before_hooks_at_any_level.
+Print Assumptions C08_source_byte_classes_are_the_models.
 
 (** D5, repaired: a dangling '-' is an error inside the string *)
 Example C08_dangling_dash : tokenize (lit "- X") = LexErr msg_optname 1.
